@@ -18,6 +18,7 @@ structure St where
   mx : PathMap.PMap := []
   ex : List PathMap.Key := []   -- spec, C++ part: every element an accepted assignment ever created
   xlive : Bool := false
+  failSize : Nat := 0           -- 'g failsize n': the first allocation of n bytes inside the next assignment fails
   deriving Inhabited
 
 def fmtKey (k : List (List Byte)) : String := "/".intercalate (k.map toHex)
@@ -92,12 +93,31 @@ def pathElems (sep assign : Byte) (text : List Byte) : Res (List (List Byte)) :=
 def fmtElems (es : List (List Byte)) : String :=
   if es.isEmpty then "none" else ",".intercalate (es.map toHex)
 
+/-- the name of an element is allocated separately (length + 1 bytes) when it does not fit the node made for it -/
+def nameAlloc (e : List Byte) : Option Nat :=
+  let len := e.length + 1
+  let size := if len + 40 ≤ 64 ∨ len + 40 > 256 then 64 else if len + 40 ≤ 128 then 128 else 256
+  if len > size - 44 then some len else none
+
 /-- an assignment through any of the trees: accepted (text value, every element fits an identifier) or refused;
     a refused assignment changes nothing -/
-def doSet (s : St) (tr : TreeSel) (pth : List Byte) (sp : Byte) (v : AVal) : St × String :=
+def doSet (s0 : St) (tr : TreeSel) (pth : List Byte) (sp : Byte) (v : AVal) : St × String :=
+  let s := { s0 with failSize := 0 }
   let key := PathMap.splitPath sp 0 pth
   match pathElems sp 0 pth with
   | .ok es =>
+    -- injected allocation failure: when the only missing element is the last one and the failing size is that of its
+    -- separately allocated name, the assignment is refused and nothing changes
+    let full := match tr with | .view b => b ++ es | _ => es
+    let tree := match tr with | .priv => s.p | _ => s.g
+    let hit : Bool := s0.failSize != 0 && (match v with | .text _ => true | .noText => false) &&
+      (match es.getLast? with | some e => nameAlloc e == some s0.failSize | none => false) &&
+      (findExact tree full).isNone && (full.length == 1 || (findExact tree full.dropLast).isSome) && full.all elemFits
+    if hit then
+      (s, match tr with
+          | .priv => line s "refused" "node" [("refused", specC s)]
+          | _ => line s "refused" "BadOperation" [("refused", specC s)])
+    else
     let accept := (match v with | .text _ => true | .noText => false) && PathMap.keyFits key
     let val := match v with | .text t => t | .noText => []
     match tr with
@@ -207,6 +227,12 @@ def step (s : St) (w : List String) : St × String :=
       match configQuery s.g b [] with
       | .ok v => (s, line s ("val=" ++ toHex v) "0" [(specR, specC s)])
       | x => (s, line s "absent" (resName x) [(specR, specC s)])
+    | none => (s, "bad-op")
+  | ["g", "failsize", n] =>
+    match n.toNat? with
+    | some n => if n < 2 ∨ n > 70000 then (s, "bad-op") else
+      let s' := { s with failSize := n }
+      (s', line s' "ok" "-" [("ok", specC s')])
     | none => (s, "bad-op")
   | ["g", "has", tr, pth, sp] =>
     match parseTree s tr, parseText pth, parseChar sp with
